@@ -50,6 +50,9 @@ func genFuncR(p *Program, w *World, fn *ssa.Function, con *Contract, excepts map
 	e := newExec(p, w)
 	e.boundK = boundK
 	e.FnName = displayName(fn)
+	if w.ActiveVariant != "" {
+		e.FnName += "@" + w.ActiveVariant
+	}
 	res = &FuncResult{Fn: e.FnName, Key: funcKey(fn), HasContract: con != nil, Refine: ref != nil}
 	defer func() {
 		res.GenTimeS = time.Since(start).Seconds()
